@@ -131,6 +131,33 @@ package keygen
 
 // The configuration handed out carries the agreed chain key (C14): the XOR over all parties' decommitted
 // contributions (r.ChainKeys, filled only through the decommitment gate of StoreBroadcastMessage above).
+// Finalize of the last round (C05): with the values the acceptance gates stored (every polynomial of degree
+// threshold and of the session's constant-term shape, 32-byte chain keys, non-nil shares) nothing panics -- in
+// particular polynomial.Sum cannot fail, so the explicit panic(err) is unreachable.
 //@ func (*round3).Finalize
+//@   nopanic[C05]
+//@   requires r3ok(r)
+//@   requires forall(j, party.ID, inslice(r.Helper.partyIDs, j) ==> len(r.ChainKeys[j]) == 32)
+//@   requires forall(j, party.ID, indom(r.shareFrom, j) ==> r.shareFrom[j] != nil)
+//@   requires forall(j, party.ID, indom(r.Phi, j) ==> (polynomial.expok(r.Phi[j]) && polynomial.polydeg(r.Phi[j]) == r.threshold && r.Phi[j].IsConstant == r.refresh))
+//@   requires indom(r.Phi, r.Helper.info.SelfID)
+//@   requires forall(j, party.ID, indom(r.verificationShares, j) ==> r.verificationShares[j] != nil)
+//@   loop 1: invariant len(ChainKey) == 32
+//@   loop 2: invariant r3ok(r) && forall(j, party.ID, indom(r.shareFrom, j) ==> r.shareFrom[j] != nil)
+//@   loop 3: invariant r3ok(r) && forall(j, party.ID, indom(r.Phi, j) ==> (polynomial.expok(r.Phi[j]) && polynomial.polydeg(r.Phi[j]) == r.threshold && r.Phi[j].IsConstant == r.refresh))
+//@   loop 5: invariant r3ok(r) && verificationExponent != nil && polynomial.expok(verificationExponent) && forall(j, party.ID, indom(r.verificationShares, j) ==> r.verificationShares[j] != nil)
+//@   loop 6: invariant r3ok(r) && forall(j, party.ID, indom(r.verificationShares, j) ==> r.verificationShares[j] != nil)
+//@   loop 7: invariant r3ok(r) && secpVerificationShares != nil && forall(j, party.ID, indom(r.verificationShares, j) ==> r.verificationShares[j] != nil)
+//@   loop 4: invariant each(exponents, q, polynomial.expok(q) && polynomial.polydeg(q) == r.threshold && q.IsConstant == r.refresh) && (visited(4, r.Helper.info.SelfID) ==> len(exponents) > 0)
 //@   assert_at[C14] ResultRound "return r.ResultRound(&Config{": typeis(arg1, *Config) && arg1.(*Config).ChainKey == ChainKey && len(ChainKey) == 32
 //@   assert_at[C14] ResultRound "return r.ResultRound(&TaprootConfig{": typeis(arg1, *TaprootConfig) && arg1.(*TaprootConfig).ChainKey == ChainKey && len(ChainKey) == 32
+
+//@ func (*round2).Finalize
+//@   nopanic[C05]
+//@   requires r2ok(r) && out != nil && !closed(out) && r.f_i.group != nil && each(r.f_i.coefficients, c, c != nil)
+// (round.NewSession: every identifier of the session has a non-zero scalar, and the session contains this party)
+//@   requires forall(x, party.ID, inslice(r.Helper.partyIDs, x) ==> idsc(x) != s_zero()) && inslice(r.Helper.partyIDs, r.Helper.info.SelfID)
+//@   requires forall(x, party.ID, inslice(r.Helper.otherPartyIDs, x) ==> inslice(r.Helper.partyIDs, x))
+//@ func (*round1).Finalize
+//@   nopanic[C05]
+//@   requires r1ok(r) && out != nil && !closed(out)
